@@ -82,6 +82,7 @@ class World(object):
         self.attempts = {}          # (tag, i) -> count
         self.action_runs = []       # (tag, i, attempt) actually executed by the executor
         self.step_exc = None
+        self.withhold = set()       # tags of actions whose run_action request is not delivered (silent / slow executor)
         self.sync_delivered = []    # ids of messages served synchronously (candidates for redelivery)
         self.dispatched = {}        # action_ex id -> number of run_action messages created
         self.writes = []
@@ -378,7 +379,7 @@ class World(object):
         out = []
         for mid in self.msg_order:
             m = self.msgs[mid]
-            if m.delivered == 0:
+            if m.delivered == 0 and not self._withheld(m):
                 out.append(('msg', mid))
         for bid, b in self.batches.items():
             if b.remaining() > 0:
@@ -404,6 +405,16 @@ class World(object):
             elif self.lpoll.at is not None:
                 out.append(('linv',) if self.lpoll.at[0] == 'invoke' else ('ldel',))
         return out
+
+    def _withheld(self, m):
+        if m.method != 'run_action' or not self.withhold:
+            return False
+        txt = json.dumps(m.kwargs.get('action'), default=str)
+        return any(('"tag": "%s"' % t) in txt or ("'tag': '%s'" % t) in txt or ('\\"tag\\": \\"%s\\"' % t) in txt for t in self.withhold)
+
+    def withheld_action_ids(self):
+        return [m.kwargs.get('action_ex_id') for m in self.msgs.values()
+                if m.method == 'run_action' and m.delivered == 0 and self._withheld(m)]
 
     def next_due(self):
         """Earliest future time at which a job becomes due (None if none)."""
@@ -468,6 +479,8 @@ class World(object):
                     ev['exc'] = type(self.lpoll.error).__name__
             elif kind == 'tick':
                 nd = st[1] if len(st) > 1 else self.next_due()
+                if nd is not None and nd < self.now:
+                    nd = self.now
                 if nd is not None:
                     self.now = nd
                     self.timeutils.set_time_override(BASE + datetime.timedelta(seconds=self.now))
@@ -475,6 +488,23 @@ class World(object):
             elif kind == 'op':
                 ev.update(op=st[1], args=list(st[2:]))
                 self._operator(st, ev)
+            elif kind == 'heartbeat':
+                self.auth_context.set_ctx(mdb.ctx('proj-A'))
+                self.engine_client.process_action_heartbeats(list(st[1]))
+                ev.update(n=len(st[1]))
+            elif kind == 'dropjob':
+                n = 0
+                tbl, col = ('scheduled_jobs_v2', 'func_name') if self.sched_kind == 'default' else ('delayed_calls_v2', 'target_method_name')
+                rows = mdb.raw_rows("select id from %s where %s like '%%%s%%'" % (tbl, col, st[1]))
+                for (jid,) in rows[:1]:
+                    from mistral.db.sqlalchemy import base as db_base
+                    import sqlalchemy as sa
+                    with db_base.get_engine().begin() as conn:
+                        conn.execute(sa.text("delete from %s where id = :i" % tbl), {'i': jid})
+                    if self.sched_kind == 'default':
+                        self.sched.in_memory_jobs.pop(jid, None)
+                    n += 1
+                ev.update(n=n)
             elif kind == 'hb':
                 from mistral.services import action_heartbeat_checker as hbc
                 hbc.handle_expired_actions()
